@@ -1,6 +1,7 @@
 //! vh_dsr — properties about the data-set reader/decoder layer
 //! (stateful decoder, adaptive VR decoder) and command sets.
 mod c07;
+mod c08;
 mod c31;
 mod gen;
 mod rd;
@@ -10,6 +11,7 @@ fn main() {
     run_main(
         |prop, ctx| match prop {
             "C07" => Some(c07::cases(ctx)),
+            "C08" => Some(c08::cases(ctx)),
             "C31" => Some(c31::cases(ctx)),
             _ => None,
         },
